@@ -23,6 +23,7 @@ Bases3    == {-1, 2, 3}
 Bases2    == {-1, 2}
 BasesE    == {-1, 3}
 Lens221   == << 2, 2, 1 >>
+Lens321   == << 3, 2, 1 >>
 Lens222   == << 2, 2, 2 >>
 Lens322   == << 3, 2, 2 >>
 Lens333   == << 3, 3, 3 >>
